@@ -1054,7 +1054,7 @@ func (panicEngine) Stats() map[string]int {
 }
 func (panicEngine) Budget(tier string) int {
 	if tier == "thorough" {
-		return 30000
+		return 80000
 	}
 	return 2500
 }
@@ -1171,12 +1171,12 @@ func (panicEngine) Gen(r *Rand, tier string) Case {
 
 type ctxEngine struct{}
 
-func (ctxEngine) Name() string         { return "ctx" }
-func (ctxEngine) DriverEngine() string { return "dispatch" }
+func (ctxEngine) Name() string          { return "ctx" }
+func (ctxEngine) DriverEngine() string  { return "dispatch" }
 func (ctxEngine) Stats() map[string]int { return panicEngine{}.Stats() }
 func (ctxEngine) Budget(tier string) int {
 	if tier == "thorough" {
-		return 30000
+		return 60000
 	}
 	return 2500
 }
